@@ -41,6 +41,7 @@ def strategy_(draw, tier="quick"):
     gen.fill_param_values(draw, sp, m["N"])
     # set_der / set_next either per state or once on a concatenation of all states (matrix-shaped ones in between)
     sp["dyn_concat"] = draw(st.integers(0, 2)) == 0
+    sp["dyn_reversed"] = draw(st.integers(0, 2)) == 0     # set_der / set_next issued in the reverse of the declaration order
     return {"spec": sp, "rng": draw(st.integers(0, 2**31 - 1))}
 
 
